@@ -535,6 +535,29 @@ def r5_ping_atomics(ctx, rid='C06.R5'):
     if sp:
         regs = [bi for bi, t in sp.calls_to(REG)]
         r.check(bool(regs), 'send_pending_ping|registers', sp.file, 'the idle branch registers ping_task')
+        # with user pings enabled and no library ping pending, every exit has either sent the user's ping,
+        # propagated the codec's Pending, or registered ping_task — otherwise a later send_ping wakes nobody
+        sws = core.all_switches(F, sp)
+        bufs = [bi for bi, t in sp.calls_to('codec::Codec::buffer')]
+        prs = [bi for bi, t in sp.calls_to('codec::Codec::poll_ready')]
+
+        def on_term(us, bi, t):
+            arm, done = us
+            if bi in regs or bi in bufs or bi in prs:
+                return (arm, True)
+            return us
+
+        def on_edge(us, bi, s):
+            sw = sws.get(bi)
+            if sw is not None and sw.kind == 'variant' and sw.adt == 'std::option::Option' and core.mentions_field(sw.subject, 'proto::ping_pong::PingPong', 'user_pings') and sw.labels.get(s) == frozenset(['Some']):
+                return (True, us[1])
+            return us
+        exits, ins, parent = core.scan(sp, (False, False), None, on_term, on_edge)
+        bad = [(bi, st) for (bi, us, rc, st) in exits if us[0] and not us[1]]
+        r.check(not bad and any(us[0] for (bi, us, rc, st) in exits), 'send_pending_ping|every-user-path-registers', sp.loc(bad[0][0]) if bad else sp.file,
+                'with user pings enabled every exit of send_pending_ping sent the ping, propagated Pending or registered ping_task' if not bad else
+                'send_pending_ping can return without registering ping_task although user pings are enabled: the next UserPings::send_ping wakes nobody and the PING is not sent until something else polls the connection',
+                witness=core.compress_path(sp, [x['bb'] for x in core.witness_path(sp, parent, bad[0][0], bad[0][1])]) if bad else None)
 
 
 def r6_admission(ctx, rid='C06.R6'):
